@@ -320,31 +320,26 @@ func init() {
 func init() {
 	registerMerge("C02", func(ctx *core.Ctx, tier string) {
 		v1, v2 := famV1(), famV2()
-		ctx.Rep.Rule = "all edges D x P: MergePatch(D,P) vs RFC 7396 pseudo-code on refjson trees. quick: V1xV2, V2xV1, V2-objects x V3-objects (depth-3 recursion through members that change type); patch and document also fed in spelling variants (members reversed, whitespace at every gap, \\u-escaped strings) on V1xV1 and on 6 documents x 128 'wide' patches (all objects over 3 names with values absent/null/1/{q:null}, at the root and one level down). thorough: V3xV3. " +
+		ctx.Rep.Rule = "all edges D x P: MergePatch(D,P) vs RFC 7396 pseudo-code on refjson trees. quick: V3xV3 (values of depth <= 3 over names a,b,c; recursion through members that change type between object/array/scalar/null/absent); V2xV2 with patch and document also fed in spelling variants (members reversed, whitespace at every gap, \\u-escaped strings); (6 documents + V2) x 192 'wide' patches (all objects over 3 names with values absent/null/1/{q:null}, at the root and one and two levels down) in every spelling. thorough: V4xV4 (13^3 objects over a,b,c, arrays of <= 3 elements), V3xV3 in every spelling. " +
 			"states = distinct documents (inputs and results); non-trivial = distinct result documents"
+		wide := wideObjects()
+		var nested []*rj.Value
+		for _, w := range wide {
+			nested = append(nested, rj.NewObj(rj.Member{Name: "a", V: w}), rj.NewObj(rj.Member{Name: "b", V: rj.NewObj(rj.Member{Name: "a", V: w})}))
+		}
+		small := parseAll([]string{`{}`, `{"a":1}`, `1`, `{"a":{"x":1,"z":2}}`, `{"x":1,"y":2,"z":3}`, `[1]`})
+		_ = v1
 		if tier == "quick" {
-			runMergeEdges(ctx, "C02", false, v1, v2, mergeCfg{})
-			runMergeEdges(ctx, "C02", false, v2, v1, mergeCfg{})
-			runMergeEdges(ctx, "C02", false, onlyObjs(v2), onlyObjs(famV3()), mergeCfg{})
-			runMergeEdges(ctx, "C02", false, v1, v1, mergeCfg{variants: true})
-			// wide new objects (adjacent nulls), at the root and one level down, every spelling
-			wide := wideObjects()
-			var nested []*rj.Value
-			for _, w := range wide {
-				nested = append(nested, rj.NewObj(rj.Member{Name: "a", V: w}))
-			}
-			small := parseAll([]string{`{}`, `{"a":1}`, `1`, `{"a":{"x":1,"z":2}}`, `{"x":1,"y":2,"z":3}`, `[1]`})
-			runMergeEdges(ctx, "C02", false, small, append(wide, nested...), mergeCfg{variants: true})
-		} else {
-			wide := wideObjects()
-			var nested []*rj.Value
-			for _, w := range wide {
-				nested = append(nested, rj.NewObj(rj.Member{Name: "a", V: w}), rj.NewObj(rj.Member{Name: "b", V: rj.NewObj(rj.Member{Name: "a", V: w})}))
-			}
-			runMergeEdges(ctx, "C02", false, famV2(), append(wide, nested...), mergeCfg{variants: true})
 			v3 := famV3()
 			runMergeEdges(ctx, "C02", false, v3, v3, mergeCfg{})
 			runMergeEdges(ctx, "C02", false, v2, v2, mergeCfg{variants: true})
+			runMergeEdges(ctx, "C02", false, append(small, v2...), append(wide, nested...), mergeCfg{variants: true})
+		} else {
+			v4 := famV4()
+			runMergeEdges(ctx, "C02", false, v4, v4, mergeCfg{})
+			v3 := famV3()
+			runMergeEdges(ctx, "C02", false, v3, v3, mergeCfg{variants: true})
+			runMergeEdges(ctx, "C02", false, append(small, v3...), append(wide, nested...), mergeCfg{variants: true})
 		}
 	}, false)
 	registerMerge("C03", func(ctx *core.Ctx, tier string) {
@@ -353,10 +348,11 @@ func init() {
 		extra := parseAll([]string{`{"n":1.0}`, `{"n":1}`, `{"n":1e400}`, `{"n":12345678901234567890123}`, `{"n":12345678901234567890124}`, `{"n":-0}`, `{"n":0}`, `{"a":{"n":1.0}}`, `{"a":{"n":1.00}}`})
 		objs = append(objs, extra...)
 		arrs := parseAll([]string{`[]`, `[{}]`, `[{"a":1}]`, `[{"a":2}]`, `[{"a":1},{"b":null}]`, `[{"a":1},{"b":2}]`, `[{},{}]`, `[{"a":{"b":1}},{"a":[1]}]`, `[{"a":{"b":2}},{"a":[2]}]`})
-		ctx.Rep.Rule = "all ordered pairs (A,B): objects of V2 (+ numbers beyond float64 precision) -> success, P={} iff A==B, minimality (every mentioned path differs, removed => null, values are B's literals), RFC round trip and library round trip when B has no null member; " +
-			"pairs of arrays of objects; all pairs of other roots of V1 -> error (null roots: DontCare). thorough: V3 objects"
+		ctx.Rep.Rule = "all ordered pairs (A,B): objects of V3 (thorough: V4, 13^3 objects over a,b,c) (+ numbers beyond float64 precision) -> success, P={} iff A==B, minimality (every mentioned path differs, removed => null, values are B's literals), RFC round trip and library round trip when B has no null member; " +
+			"pairs of arrays of objects; all pairs of other roots of V1 -> error (null roots: DontCare)"
+		objs = append(onlyObjs(famV3()), extra...)
 		if tier == "thorough" {
-			objs = append(onlyObjs(famV3()), extra...)
+			objs = append(onlyObjs(famV4()), extra...)
 		}
 		runCreatePairs(ctx, "C03", false, objs, objs)
 		runCreatePairs(ctx, "C03", false, arrs, arrs)
@@ -364,25 +360,24 @@ func init() {
 		runCreatePairs(ctx, "C03", false, v1, v1)
 	}, false)
 	registerMerge("C06", func(ctx *core.Ctx, tier string) {
-		ctx.Rep.Rule = "Equal(a,b) vs reference structural equality (numbers by literal; numerically-equal-but-differently-spelled pairs are DontCare) for all ordered pairs of V2 (quick) / V3 (thorough), each value also in reordered, whitespace-padded and \\u-escaped spellings; every JSON string escape (solidus, quote, backslash, b f n r t, uXXXX in both cases, surrogate pairs) in all spellings at the root, in arrays, as member value and as member name; " +
+		ctx.Rep.Rule = "Equal(a,b) vs reference structural equality (numbers by literal; numerically-equal-but-differently-spelled pairs are DontCare) for all ordered pairs of V3 (quick) / V4 (thorough), each value also in reordered, whitespace-padded and \\u-escaped spellings; every JSON string escape (solidus, quote, backslash, b f n r t, uXXXX in both cases, surrogate pairs) in all spellings at the root, in arrays, as member value and as member name; " +
 			"agreement with an equivalence relation on the whole set gives reflexivity, symmetry and transitivity there; malformed inputs are added by bytex (see C04/C16 clauses in this check)"
-		vs := famV2()
+		vs := famV3()
 		if tier == "thorough" {
-			vs = famV3()
+			vs = famV4()
 		}
 		runEqualPairs(ctx, "C06", false, vs, true)
 		runEqualEscapes(ctx, "C06")
 		runEqualMalformed(ctx, "C06", tier)
 	}, false)
 	registerMerge("C07", func(ctx *core.Ctx, tier string) {
-		ctx.Rep.Rule = "all triples (D,P1,P2): P1,P2 object patches (V2 objects; thorough: V3 objects) satisfying the compatibility condition (computed by the reference), plus non-object P2; D over V1 plus nested documents; " +
+		ctx.Rep.Rule = "all triples (D,P1,P2): P1,P2 object patches (V3 objects; thorough: P2 over the 13^3 objects of V4) satisfying the compatibility condition (computed by the reference), plus non-object P2; D over V1 plus nested documents; " +
 			"RFC-apply(D, MergeMergePatches(P1,P2)) == RFC-apply(RFC-apply(D,P1),P2); the same through the library's MergePatch on a sub-family; non-object P2 => result == P2"
 		docs := append(famV1(), parseAll(membs2)...)
-		ps := onlyObjs(famV2())
+		ps := onlyObjs(famV3())
 		p2s := append(append([]*rj.Value(nil), ps...), parseAll([]string{`[1]`, `"s"`, `1`, `null`, `[{"a":null}]`, `true`})...)
 		if tier == "thorough" {
-			ps = onlyObjs(famV3())
-			p2s = append(append([]*rj.Value(nil), ps...), parseAll([]string{`[1]`, `"s"`, `1`, `null`, `[{"a":null}]`, `true`})...)
+			p2s = append(append([]*rj.Value(nil), onlyObjs(famV4())...), parseAll([]string{`[1]`, `"s"`, `1`, `null`, `[{"a":null}]`, `true`})...)
 		}
 		runCompose(ctx, "C07", false, dedupe(docs), ps, p2s)
 	}, false)
